@@ -6,7 +6,7 @@ enumerator values and discriminators.  Generated in a dependency order, then per
 from harness.gen import schema as S
 
 
-def gen_dag(rng, n=10, prefix='N'):
+def gen_dag(rng, n=10, prefix='N', enum_heavy=False):
     sc = S.Schema()
     consts = []        # (name, value)
     enumerators = []   # (name, value)
@@ -40,6 +40,8 @@ def gen_dag(rng, n=10, prefix='N'):
     for i in range(n):
         name = '%s%d' % (prefix, i)
         r = rng.random()
+        if enum_heavy:
+            r = 0.1 if r < 0.15 else 0.3 if r < 0.6 else 0.4 + (r - 0.6) * 1.5    # 15% constants, 45% enums, the rest as usual
         if r < 0.25:
             e, v = expr()
             sc.decls.append(S.Const(name, e))
@@ -55,7 +57,15 @@ def gen_dag(rng, n=10, prefix='N'):
                 e, v = expr()
                 del enumerators[:]
                 enumerators.extend(saved)
-                if own and rng.random() < 0.5:
+                foreign = {}
+                for n_, v_ in saved:
+                    foreign.setdefault(n_.split('_e')[0], []).append((n_, v_))
+                if len(foreign) >= 2 and rng.random() < 0.35:
+                    # enumerators of two different other enums in one value (the sort has two unresolved names to choose from)
+                    ea, eb = rng.sample(sorted(foreign), 2)
+                    (an, av), (bn, bv) = rng.choice(foreign[ea]), rng.choice(foreign[eb])
+                    e, v = '%s + %s' % (an, bn), av + bv
+                elif own and rng.random() < 0.5:
                     # own earlier enumerator first, then a name defined elsewhere
                     on, ov = rng.choice(own)
                     pool = [(n_, v_) for n_, v_ in consts + saved if v_ <= 9]
